@@ -242,8 +242,9 @@ def make_system(transport: str, cfg: dict, faults: list):
         from spsdk.utils.interfaces.device.serial_device import SerialDevice
 
         link = md.SerialLink(dev)
+        link.reject = {f[1] for f in faults if f and f[0] == "reject"}
         sd = SerialDevice(port=None, timeout=50)
-        fake = FakeSerial(link, faults)
+        fake = FakeSerial(link, [f for f in faults if not (f and f[0] == "reject")])
         sd._device = fake
         proto = MbootSerialProtocol(sd)
     else:
@@ -656,8 +657,9 @@ def clean_trace(transport: str, cfg: dict, pre: list, op: tuple) -> dict:
     start = len(link.out)
     serial = transport.endswith("serial")
     fstart = len(link.frames_sent) if serial else 0
+    hstart = getattr(link, "host_frames", 0)
     obs = run_op(dev, mb, op, cfg)
-    return {"obs": obs, "start": start, "end": len(link.out), "dev": dev_state(dev),
+    return {"obs": obs, "start": start, "end": len(link.out), "dev": dev_state(dev), "hframes": [hstart, getattr(link, "host_frames", 0)],
             "replen": [len(r) for r in link.out[start:]] if not serial else None,
             "repid": [r[0] if r else -1 for r in link.out[start:]] if not serial else None,
             "frames": [f for f in link.frames_sent[fstart:]] if serial else None}
@@ -679,6 +681,9 @@ def fault_specs(transport: str, tr: dict, second: bool = False) -> list:
             out += [["drop", pos], ["truncate", pos], ["insert00", pos], ["pause", pos]]
         for off, kind, ln in tr["frames"]:
             out += [["nak", off], ["abort", off], ["dup", off]]
+        # a NAK that the DEVICE means: it refuses the k-th command/data frame of the host (and does not consume it)
+        for k in range(*tr.get("hframes", [0, 0])):
+            out.append(["reject", k])
     elif transport == "sdp-serial":
         # the SDP byte stream has no checksum: corruption of *data* bytes is undetectable by any host, so value
         # faults are injected into the 4-byte HAB/completion words only; loss/timing faults everywhere
@@ -754,7 +759,7 @@ def _reduced_kind(transport: str, sp: list) -> bool:
         return sp[3] == 0 and sp[2] in (0, 2)
     if k == "short":
         return sp[2] == 1
-    return k in ("drop", "pause", "nak", "abort", "dup", "truncate", "empty")
+    return k in ("drop", "pause", "nak", "abort", "dup", "truncate", "empty", "reject")
 
 
 def _trace_with(transport: str, cfg: dict, pre: list, op: tuple, faults: list) -> Optional[dict]:
@@ -767,13 +772,14 @@ def _trace_with(transport: str, cfg: dict, pre: list, op: tuple, faults: list) -
     start = len(link.out)
     serial = transport.endswith("serial")
     fstart = len(link.frames_sent) if serial else 0
+    hstart = getattr(link, "host_frames", 0)
     try:
         obs = run_op(dev, mb, op, cfg)
     except Horizon:
         return None
     if obs.get("horizon"):
         return None
-    return {"start": start, "end": len(link.out),
+    return {"start": start, "end": len(link.out), "hframes": [hstart, getattr(link, "host_frames", 0)],
             "replen": [len(r) for r in link.out[start:]] if not serial else None,
             "repid": [r[0] if r else -1 for r in link.out[start:]] if not serial else None,
             "frames": [f for f in link.frames_sent[fstart:]] if serial else None}
@@ -934,7 +940,7 @@ def run(ctx: core.Ctx) -> None:
         if ctx.absorb(case, res):
             for k, n in res.get("outcomes", {}).items():
                 fo[k] = fo.get(k, 0) + n
-    ctx.sample({"fault_task": ftasks[0], "fault_kinds_serial": ["flip(bit)", "drop", "truncate", "insert00", "pause(short read)", "nak", "abort", "dup"],
+    ctx.sample({"fault_task": ftasks[0], "fault_kinds_serial": ["flip(bit)", "drop", "truncate", "insert00", "pause(short read)", "nak", "abort", "dup", "reject(device NAKs and discards the k-th host frame)"],
                 "fault_kinds_hid": ["drop", "truncate", "abort(zero-length)", "dup", "empty", "short", "hdrflip(byte,bit)"]})
     ctx.cov["states"] = ctx.counters.get("states", 0)
     ctx.cov["transitions"] = ctx.counters.get("transitions", 0)
